@@ -640,13 +640,14 @@ class ExcelInPython:
     def _iferror(self, condition_function, when_error):
         try:
             cell = condition_function()
-            if self._find_error_in_list([cell]):
-                return when_error
-            else:
+            if not self._find_error_in_list([cell]):
                 return cell
         except:
-            return when_error
-    
+            pass
+
+        # the fallback is calculated only when it is needed
+        return when_error() if callable(when_error) else when_error
+
     def _when_cell_is_empty_cast_to_zero(self, iterable: List):
         return [0 if isinstance(i, self.EmptyCell) else i for i in iterable]
         
@@ -821,18 +822,17 @@ class ExcelInPython:
         return len(empty)
 
     def _ifs(self, flatten_list: List):
-        err_value = self._find_error_in_list(flatten_list)
-        if err_value:
-            return err_value
-
+        # the conditions and the values come as functions: a value is calculated only when its condition is the first true one
         index = 0
-        while index < len(flatten_list):
-            if flatten_list[index]:
-                return flatten_list[index + 1]
+        while index + 1 < len(flatten_list):
+            condition = flatten_list[index]() if callable(flatten_list[index]) else flatten_list[index]
+            if self._find_error_in_list([condition]):
+                return condition
+            if condition:
+                return flatten_list[index + 1]() if callable(flatten_list[index + 1]) else flatten_list[index + 1]
             index += 2
 
         return '#N/A'
-
 
     def _search(self, find_text: str, within_text: str, start_num: int | None):
         start_num = start_num if start_num else 1
